@@ -177,19 +177,31 @@ func refNuGet(a, b string) (int, bool) {
 }
 
 // ---------------------------------------------------------------------------------------------
-// PEP 440 canonical ("normalised") public+local versions:  [N!]N(.N)*[{a|b|rc}N][.postN][.devN][+local]
+// PEP 440 public+local versions in any accepted spelling, normalised:  [N!]N(.N)*[{a|b|rc}N][.postN][.devN][+local]
 // Ordering = packaging.version._cmpkey.
 
-var pep440Canon = regexp.MustCompile(`^(?:(\d+)!)?(\d+(?:\.\d+)*)(?:(a|b|rc)(\d+))?(?:\.post(\d+))?(?:\.dev(\d+))?(?:\+([a-z0-9]+(?:\.[a-z0-9]+)*))?$`)
+// The PEP 440 Appendix B regular expression (case-insensitive), i.e. every spelling PEP 440 accepts;
+// parsePEP440 applies the PEP's normalisation rules (alpha->a, beta->b, c/pre/preview->rc,
+// rev/r->post, "-N" -> postN, implicit 0, any of . - _ as separator, leading v, surrounding blanks).
+var pep440Canon = regexp.MustCompile(`(?i)^\s*v?(?:(?:([0-9]+)!)?([0-9]+(?:\.[0-9]+)*)(?:[-_.]?(a|b|c|rc|alpha|beta|pre|preview)[-_.]?([0-9]+)?)?(?:(?:-([0-9]+))|(?:[-_.]?(post|rev|r)[-_.]?([0-9]+)?))?(?:[-_.]?(dev)[-_.]?([0-9]+)?)?)(?:\+([a-z0-9]+(?:[-_.][a-z0-9]+)*))?\s*$`)
+
+var pepLocalSep = regexp.MustCompile(`[-_.]`)
 
 type pepParts struct {
 	epoch   string
 	release []string
-	preL    string // "" none
+	preL    string // "" none, else a|b|rc
 	preN    string
 	post    string // "" none
 	dev     string // "" none
 	local   []string
+}
+
+func orZero(s string) string {
+	if s == "" {
+		return "0"
+	}
+	return s
 }
 
 func parsePEP440(s string) (pepParts, bool) {
@@ -197,12 +209,27 @@ func parsePEP440(s string) (pepParts, bool) {
 	if m == nil {
 		return pepParts{}, false
 	}
-	p := pepParts{epoch: m[1], release: strings.Split(m[2], "."), preL: m[3], preN: m[4], post: m[5], dev: m[6]}
-	if p.epoch == "" {
-		p.epoch = "0"
+	p := pepParts{epoch: orZero(m[1]), release: strings.Split(m[2], ".")}
+	switch strings.ToLower(m[3]) {
+	case "":
+	case "a", "alpha":
+		p.preL, p.preN = "a", orZero(m[4])
+	case "b", "beta":
+		p.preL, p.preN = "b", orZero(m[4])
+	default: // c, rc, pre, preview
+		p.preL, p.preN = "rc", orZero(m[4])
 	}
-	if m[7] != "" {
-		p.local = strings.Split(m[7], ".")
+	switch {
+	case m[5] != "":
+		p.post = m[5]
+	case m[6] != "":
+		p.post = orZero(m[7])
+	}
+	if m[8] != "" {
+		p.dev = orZero(m[9])
+	}
+	if m[10] != "" {
+		p.local = pepLocalSep.Split(strings.ToLower(m[10]), -1)
 	}
 	return p, true
 }
@@ -704,7 +731,7 @@ func refPackagist(a, b string) (int, bool) {
 // no leading zeros. alpha < beta < pre < rc < (none) < cvs < svn < git < hg < p.
 // Pairs where exactly one side has -rN, or with different component counts, are left out.
 
-var alpineCanon = regexp.MustCompile(`^(\d+(?:\.\d+){0,2})(?:_(alpha|beta|pre|rc|cvs|svn|git|hg|p)(\d*))?(?:-r(\d+))?$`)
+var alpineCanon = regexp.MustCompile(`^(\d+(?:\.\d+){0,2})([a-z]?)(?:_(alpha|beta|pre|rc|cvs|svn|git|hg|p)(\d*))?(?:-r(\d+))?$`)
 
 var alpineRank = map[string]int{"alpha": 0, "beta": 1, "pre": 2, "rc": 3, "": 4, "cvs": 5, "svn": 6, "git": 7, "hg": 8, "p": 9}
 
@@ -723,20 +750,24 @@ func refAlpine(a, b string) (int, bool) {
 			return 0, false
 		}
 	}
-	if (x[4] == "") != (y[4] == "") {
+	if (x[5] == "") != (y[5] == "") {
 		return 0, false
 	}
 	if d := numsCmp(xn, yn); d != 0 {
 		return d, true
 	}
-	xr, yr := alpineRank[x[2]], alpineRank[y[2]]
+	// optional single letter after the numbers: none < a < b ...; it is compared before any suffix
+	if d := strings.Compare(x[2], y[2]); d != 0 {
+		return d, true
+	}
+	xr, yr := alpineRank[x[3]], alpineRank[y[3]]
 	if xr != yr {
 		return sgn(xr - yr), true
 	}
-	if x[2] != "" {
+	if x[3] != "" {
 		// an un-numbered suffix counts as 0 (apk test data: 1.3_alpha < 1.3_alpha2); "_alpha" vs
 		// "_alpha0" is left out
-		xs, ys := x[3], y[3]
+		xs, ys := x[4], y[4]
 		if (xs == "") != (ys == "") && numCmp("0"+xs, "0"+ys) == 0 {
 			return 0, false
 		}
@@ -744,16 +775,15 @@ func refAlpine(a, b string) (int, bool) {
 			return d, true
 		}
 	}
-	if x[4] != "" {
-		return numCmp(x[4], y[4]), true
+	if x[5] != "" {
+		return numCmp(x[5], y[5]), true
 	}
 	return 0, true
 }
 
 // ---------------------------------------------------------------------------------------------
 // CRAN (R package_version): 2..4 non-negative integers separated by '.' or '-', compared
-// component-wise. If one is a strict prefix of the other the longer one is greater when its extra
-// components are not all zero; the all-zero case (1.0 vs 1.0.0) is left out.
+// component-wise; if one is a strict prefix of the other the longer one is greater.
 
 var cranCanon = regexp.MustCompile(`^\d+(?:[.-]\d+){1,3}$`)
 
@@ -771,16 +801,9 @@ func refCRAN(a, b string) (int, bool) {
 	if len(x) == len(y) {
 		return 0, true
 	}
-	long, s := x, 1
-	if len(y) > len(x) {
-		long, s = y, -1
-	}
-	for _, c := range long[min(len(x), len(y)):] {
-		if strings.TrimLeft(c, "0") != "" {
-			return s, true
-		}
-	}
-	return 0, false
+	// all common components equal: the longer version is the later one (R compareVersion /
+	// package_version: 1.0 < 1.0.0; CRAN archive order 0.1.0 < 0.1.0.0)
+	return sgn(len(x) - len(y)), true
 }
 
 // ---------------------------------------------------------------------------------------------
